@@ -42,7 +42,9 @@ def observe_running(w: progs.World, label: str, problems: List[str], records: Li
     ctxs = st.frames[0].contexts
     got = [(ids.get(id(c.obj), "?" if c.obj is not None else None), c.is_async, c.is_exiting) for c in ctxs]
     want = [(mid, type(w.mgrs[mid]).__name__ == "AMgr", ex) for mid, ex in truth]
-    ws = [str(x.message)[:160] for x in caught if issubclass(x.category, lowlevel.InspectionWarning)]
+    from stackscope._lowlevel import InspectionWarning
+
+    ws = [str(x.message)[:160] for x in caught if issubclass(x.category, InspectionWarning)]
     records.append({"label": label, "lasti": f.f_lasti, "got": got})
     if got != want:
         problems.append(f"{label} (f_lasti={f.f_lasti}): contexts {got}, the event log says {want}")
